@@ -321,12 +321,41 @@ def run_case(ctx, case):
             s4.run(inst, prelude)
         s4.run("o", so["block"])
         # the restored instance starts from a *different* solution with the same T/P and gets only the conserved quantities
-        mod = "SOLUTION %d\n temp %s\n pressure %s\n pH 6\n Na 0.01\n Cl 0.01\n water %s\nEND\n" % (k, so.get("-temp", "25"), so.get("-pressure", "1"), so.get("-mass_water", "1"))
+        # every other case: the target already holds every element of the original (so redox elements sit there in several valence states, with other amounts)
+        # and the totals are given per element, the way a transport code hands them back; otherwise the totals go in valence by valence as dumped
+        elementwise = ctx.rng("p4", case["id"]).random() < 0.5
+        tot = list(so["totals"])
+        start = " Na 0.01\n Cl 0.01\n"
+        if elementwise:
+            summed = {}
+            for el, v in so["totals"]:
+                base = el.split("(")[0]
+                if base in ("H", "O") or el.startswith("["):
+                    summed[el] = summed.get(el, 0.0) + float(v)      # H(0), O(0) and isotopes stay as dumped
+                else:
+                    summed[base] = summed.get(base, 0.0) + float(v)
+            tot = [(el, "%.17g" % v) for el, v in summed.items()]
+            try:
+                mw = float(so.get("-mass_water", "1")) or 1.0
+            except ValueError:
+                mw = 1.0
+            start = " units mol/kgw\n"
+            for el, v in tot:
+                if "(" not in el and not el.startswith("[") and v and float(v) > 0:
+                    start += " %s %.6g\n" % (el, min(0.37 * float(v) / mw + 1e-7, 0.5))
+            if not any(l.split()[0] == "Na" for l in start.split("\n")[1:] if l.split()):
+                start += " Na 1e-5\n"
+            if not any(l.split()[0] == "Cl" for l in start.split("\n")[1:] if l.split()):
+                start += " Cl 1e-5\n"
+        mod = "SOLUTION %d\n temp %s\n pressure %s\n pH 6\n%s water %s\nEND\n" % (k, so.get("-temp", "25"), so.get("-pressure", "1"), start, so.get("-mass_water", "1"))
+        if elementwise:
+            # a saved reaction result stores the redox elements valence by valence (S(-2) and S(6), C(-4) and C(4), ...): that is the state the element totals must replace
+            mod += "USE solution %d\nREACTION 1\n NaCl 1\n 1e-6 mol\nSAVE solution %d\nEND\n" % (k, k)
         mod += "SOLUTION_MODIFY %d\n -total_h %s\n -total_o %s\n -cb %s\n -totals\n" % (k, so["-total_h"], so["-total_o"], so["-cb"])
-        for el, v in so["totals"]:
+        for el, v in tot:
             mod += "  %s %s\n" % (el, v)
         for el in ("Na", "Cl"):
-            if el not in [e for e, _ in so["totals"]]:
+            if el not in [e for e, _ in tot]:
                 mod += "  %s 0\n" % el
         mod += "END\n"
         s4.run("r", mod)
@@ -347,7 +376,8 @@ def run_case(ctx, case):
                     ok, detail, n = _cmp_tables(_snap_tables(run4, "fu:o"), _snap_tables(run4, "fu:r"))
                     ncmp += n
                     if not ok:
-                        bad("followup-differs/solution-modify", "solution %d restored via SOLUTION_MODIFY(totals,total_h,total_o,cb) behaves differently: %s" % (k, detail))
+                        bad("followup-differs/solution-modify", "solution %d restored via SOLUTION_MODIFY(%s totals,total_h,total_o,cb) behaves differently: %s" % (
+                            k, "element" if elementwise else "valence", detail))
     sigs = [",".join(opts)] if ncmp else []
     stats = {"n_cells_compared": ncmp, "set_raw_options": opts, "n_dump_bytes": len(d1), "set_kinds": kinds}
     if findings:
